@@ -64,6 +64,7 @@ func cmdStress(args []string) {
 	nLate := fs.Int("late", 6, "late attachers (in bursts)")
 	nDocs := fs.Int("docs", 2, "documents")
 	nOps := fs.Int("ops", 25, "steps per steady client")
+	attachLimit := fs.Int("attachlimit", 0, "project MaxAttachmentsPerDocument (> 0 makes the handlers take the per-document attachment lock)")
 	_ = fs.Parse(args)
 
 	t, err := world.NewTrace(*out)
@@ -80,7 +81,11 @@ func cmdStress(args []string) {
 		fatal(2, "project: %v", err)
 	}
 	th, iv := int64(3), int64(3)
-	if _, err := srv.Be.DB.UpdateProjectInfo(ctx, project.ID, &types.UpdatableProjectFields{SnapshotThreshold: &th, SnapshotInterval: &iv}); err != nil {
+	fields := &types.UpdatableProjectFields{SnapshotThreshold: &th, SnapshotInterval: &iv}
+	if *attachLimit > 0 {
+		fields.MaxAttachmentsPerDocument = attachLimit
+	}
+	if _, err := srv.Be.DB.UpdateProjectInfo(ctx, project.ID, fields); err != nil {
 		fatal(2, "project settings: %v", err)
 	}
 
@@ -155,6 +160,10 @@ func cmdStress(args []string) {
 			// bursts: late clients start in groups at the same moment
 			m.wait = gotime.Duration(1+(i/3)*3) * 4 * gotime.Millisecond
 			m.plan = []stressPlan{{kind: "sync", doc: rng.Intn(*nDocs)}, {kind: "inc", doc: rng.Intn(*nDocs), val: 1}, {kind: "sync", doc: rng.Intn(*nDocs)}}
+			if i%2 == 0 {
+				// every other late client leaves again through the SDK's own Detach (its edit goes with it)
+				m.plan = append(m.plan, stressPlan{kind: "detach", doc: 0})
+			}
 		}
 
 		call := func(m *member, kind string, d int, f func(ctx context.Context) error) bool {
@@ -271,6 +280,13 @@ func cmdStress(args []string) {
 						if m.docs[p.doc] != nil {
 							pd := p.doc
 							call(m, "sync", pd, func(c context.Context) error { return m.c.Sync(c, client.WithKey(docKeys[pd])) })
+						}
+					case "detach":
+						if doc := m.docs[p.doc]; doc != nil {
+							pd := p.doc
+							if call(m, "detach", pd, func(c context.Context) error { return m.c.Detach(c, doc) }) {
+								m.docs[pd] = nil
+							}
 						}
 					case "idle":
 						runtime.Gosched()
